@@ -12,6 +12,7 @@ import (
 	"time"
 
 	"github.com/wokdav/gopki/generator/cert"
+	"github.com/wokdav/gopki/generator/config"
 )
 
 // documented names (certificate-example.yaml / certificate.json), independent of the tables under test
@@ -183,3 +184,33 @@ func TestVerifBoundedRaw(t *testing.T) {
 }
 
 func vfB64(b []byte) string { return base64.StdEncoding.EncodeToString(b) }
+
+// TestVerifFindingRelativeValidityHash shows the known finding of C13 on the real code: two configurations that differ
+// only in their relative validity (duration 1y against 2y) have the same configuration hash although their
+// certificates differ, so the edit is not detected by the "changed" strategy.
+func TestVerifFindingRelativeValidityHash(t *testing.T) {
+	conf := V1Configurator{}
+	parse := func(d string) (*config.CertificateContent, error) {
+		obj, err := conf.ParseConfiguration(`{"version":1,"subject":"CN=x","validity":{"duration":"` + d + `"}}`)
+		if err != nil {
+			return nil, err
+		}
+		c, ok := obj.(*config.CertificateContent)
+		if !ok {
+			return nil, fmt.Errorf("not a certificate configuration")
+		}
+		return c, nil
+	}
+	a, err1 := parse("1y")
+	b, err2 := parse("2y")
+	if err1 != nil || err2 != nil {
+		fmt.Printf("VERIF-REPLAY: not-reproduced parse errors %v %v\n", err1, err2)
+		return
+	}
+	pa, pb := a.Validity.Until.Sub(a.Validity.From), b.Validity.Until.Sub(b.Validity.From)
+	if string(a.HashSum()) == string(b.HashSum()) && pa != pb {
+		fmt.Printf("VERIF-REPLAY: confirmed duration 1y (%v) and duration 2y (%v) hash alike: %x\n", pa, pb, a.HashSum())
+		return
+	}
+	fmt.Printf("VERIF-REPLAY: not-reproduced hashes %x %x periods %v %v\n", a.HashSum(), b.HashSum(), pa, pb)
+}
